@@ -33,11 +33,15 @@ def _key(line):
 
 
 def check(ctx):
+    from .. import skipn
     ok = check_property_proofs(ctx, "C18")
     if not ok:
         ctx.violation("proof obligation for C18 no longer checks",
                       {"broken": [n for n, o, _ in ctx.obligations if not o]}, found_input=False)
     tier = ctx.tier
+    # raw combinators with explicit skip counts / containers whose direct elements are sequences (outside the field-by-field model:
+    # decided by the property itself, == iff same {:?}, on values that hold no span)
+    skipn.check_eq(ctx, 6 if tier == "quick" else 8)
     envs = eqhash.environments(tier)
     bindir = eqhash.build_crate(tier, envs)
     eqhash.fill_preds(bindir, envs)
